@@ -480,7 +480,7 @@ pub fn run_c09(tier: Tier) -> i32 {
     let out = run_generated(
         "C09-crash",
         env_seed(),
-        tier.pick(32, 400),
+        tier.pick(64, 800),
         || (crate::gen::history(&g), any::<u64>()).prop_map(|(mut spec, kseed)| {
             for r in spec.rounds.iter_mut() {
                 r.commit = true;
